@@ -180,6 +180,11 @@ def main(argv=None):
     rep = core.Report("C02", a.tier, a.seed)
     core.props_or_violation(rep)
     drv = core.Driver()
+    if a.replay:
+        import json as _json
+        family.replay_text_case(rep, drv, _json.load(open(a.replay)), check_model, False)
+        drv.close()
+        return rep.finish(level="proof", rule="replay of " + a.replay, trusted_base=["see the full check"])
     rng = random.Random(a.seed)
     gen = lang.Gen(rng, max_depth=3, p_cond=0.25)
     n = a.n or (36 if a.tier == "quick" else 700)
